@@ -189,6 +189,16 @@ def assignment_templates():
         (INT, I(6), ("true",), ("set", "band", "bor", "bxor")),
         (BOOL, ("true",), I(1), ("set", "band", "bor", "bxor")),
         (multi(INT, STR), I(1), F(2.5), ("set",)),
+        # a content type that is a UNION of array / string types: the right side alone may fit the union although the result
+        # of `*c + rhs` (an array of the joined element type) does not
+        (multi(arr(INT), arr(FLOAT)), ("array", [F(1.5)]), ("array", [I(1)]), ("add",)),
+        (multi(arr(INT), arr(FLOAT)), ("array", [I(1)]), ("array", [F(1.5)]), ("add",)),
+        (multi(arr(INT), arr(STR)), ("array", [("s", "a")]), ("array", [I(1)]), ("add",)),
+        (multi(arr(INT), STR), ("s", "a"), ("array", [I(1)]), ("add",)),
+        (multi(arr(INT), STR), ("array", [I(1)]), ("s", "a"), ("add",)),
+        (multi(arr(arr(INT)), arr(arr(FLOAT))), ("array", [("array", [I(1)])]), ("array", [("array", [F(0.5)])]), ("add",)),
+        (multi(INT, FLOAT), I(1), F(2.5), ("add", "sub", "mul", "div", "pow")),
+        (multi(INT, FLOAT), F(1.5), I(2), ("add", "sub", "mul", "div", "pow")),
     ]
     for ct, init, rhs, ops in cases:
         for op in ops:
